@@ -413,6 +413,10 @@ func LockCheck(c *Ctx, funcs []*ssa.Function, rows []GuardRow, requires []LockRe
 				c.Site(InstrPos(a.Instr), "%s: %s of %s.%s under %s (%s)", FuncName(fn), a.How, a.Type, a.Field, mpath, modeName(held))
 				continue
 			}
+			if heldByCallers(c.P, req, fn, a.BasePath, row.Mutex, need, 2) {
+				c.Site(InstrPos(a.Instr), "%s: %s of %s.%s — every caller of this unexported helper holds %s (%s)", FuncName(fn), a.How, a.Type, a.Field, mpath, modeName(need))
+				continue
+			}
 			c.Violation(fmt.Sprintf("lock:%s:%s#%d", FuncName(fn), k, occ[k]), InstrPos(a.Instr),
 				"%s: %s of %s.%s requires %s held for %s, lockset here is %s", FuncName(fn), a.How, a.Type, a.Field, mpath, modeName(need), li.HeldSet(a.Instr))
 		}
@@ -517,4 +521,87 @@ func tryLockEdge(pred, succ *ssa.BasicBlock, o lockset) lockset {
 	n := o.clone()
 	n[AccessPath(Receiver(call))] = mode
 	return n
+}
+
+// heldByCallers: fn is an unexported, top-level repo function that is only
+// ever called statically (never go/defer, never used as a value, not an
+// interface method), base is one of its parameters, and at every call site the
+// caller holds <argument path>.<mutex> in at least mode need (or is itself such
+// a helper, to the given depth). Extracting a locked region's body into a
+// private helper therefore does not change the verdict, while dropping the lock
+// in any one caller does.
+func heldByCallers(p *Prog, req map[string][]LockRequire, fn *ssa.Function, base, mutex string, need, depth int) bool {
+	if depth <= 0 || fn == nil || fn.Parent() != nil || fn.Object() == nil || fn.Object().Exported() || !p.InRepo(fn) {
+		return false
+	}
+	idx := -1
+	for i, q := range fn.Params {
+		if q.Name() == base {
+			idx = i
+		}
+	}
+	if idx < 0 {
+		return false
+	}
+	if len(p.FuncValueUses(fn)) > 0 || p.isIfaceMethod(fn) {
+		return false
+	}
+	callers := p.Callers(fn)
+	if len(callers) == 0 {
+		return false
+	}
+	for _, call := range callers {
+		if _, ok := call.(*ssa.Call); !ok {
+			return false
+		}
+		args := call.Common().Args
+		if idx >= len(args) {
+			return false
+		}
+		caller := call.Parent()
+		entry := lockset{}
+		for _, rr := range req[FuncName(caller)] {
+			entry[rr.Mutex] = rr.Mode
+		}
+		path := AccessPath(args[idx])
+		li := Locksets(caller, entry)
+		if li.Held(call.(ssa.Instruction), path+"."+mutex) >= need {
+			continue
+		}
+		if !heldByCallers(p, req, caller, path, mutex, need, depth-1) {
+			return false
+		}
+	}
+	return true
+}
+
+// isIfaceMethod: fn is a method whose name is declared by some interface type of the repo
+// (it could then be reached by dynamic dispatch, which Callers does not see).
+func (p *Prog) isIfaceMethod(fn *ssa.Function) bool {
+	if fn.Signature.Recv() == nil {
+		return false
+	}
+	if p.ifaceMethodNames == nil {
+		p.ifaceMethodNames = map[string]bool{}
+		for _, pkg := range p.SSA.AllPackages() {
+			if pkg.Pkg == nil || !(pkg.Pkg.Path() == ModPath || strings.HasPrefix(pkg.Pkg.Path(), ModPath+"/")) {
+				continue
+			}
+			sc := pkg.Pkg.Scope()
+			for _, n := range sc.Names() {
+				tn, ok := sc.Lookup(n).(*types.TypeName)
+				if !ok {
+					continue
+				}
+				it, ok := tn.Type().Underlying().(*types.Interface)
+				if !ok {
+					continue
+				}
+				for i := 0; i < it.NumMethods(); i++ {
+					p.ifaceMethodNames[it.Method(i).Name()] = true
+				}
+			}
+		}
+	}
+	return p.ifaceMethodNames[fn.Name()]
 }
